@@ -376,6 +376,10 @@ def check_constraint_writes(model, rep):
     if ok:
         b = exp[0][1]
         sel = resolved(g.node, drop[0].targets[0].slice)    # one level: the selection may have been given a name
+        if isinstance(sel, ast.Subscript) and isinstance(sel.slice, ast.Name):      # ... and so may its mask
+            import copy as _copy
+            sel = _copy.deepcopy(sel)
+            sel.slice = resolved(g.node, sel.slice)
         bb = {'C_': b['C_'], 'D_': b['D_']}
         ok = pmatch('C_[abs(D_) > droptol]', sel, bb) is not None or pmatch('C_[numpy.abs(D_) > droptol]', sel, bb) is not None
     init = [s for s in find_stmts(g.body, lambda s: isinstance(s, ast.Assign)) if src(s.targets[0]) == M]
